@@ -265,9 +265,9 @@ class Gen:
                 row["choice_filter"] = self.choice_filter()
             if rng.random() < 0.4 and "_from_file" in cmd:
                 if rng.random() < 0.7:
-                    p["value"] = rng.choice(["v", "id", "code", "my-val", "a.b"])
+                    p["value"] = rng.choice(["v", "id", "code", "my-val", "a.b", "Code", "ID_2", "camelCase"])
                 if rng.random() < 0.7:
-                    p["label"] = rng.choice(["l", "title", "lbl", "name"])
+                    p["label"] = rng.choice(["l", "title", "lbl", "name", "Title", "nameEN"])
             if rng.random() < 0.25:
                 p["randomize"] = "true"
                 if rng.random() < 0.5:
